@@ -292,6 +292,15 @@ def gen_purity_world(rw, rv, knobs):
         ds_masked = R.add("ds", {"kind": "derive", "src": ref(ds0), "q": {"t": "call", "name": "apply_mask", "kw": {"mask": ref(m0)}}})
         if rw.random() < 0.3:
             R.add("cv", {"kind": "convolver", "mask": ref(m0), "kernel": ref(psf)})
+        if rw.random() < 0.35:
+            # an over-sampling request the caller keeps and hands to one dataset after another; slots left out fall back to the dataset's
+            slots = {k: rw.randrange(1, 4) for k in rw.sample(["uniform", "non_uniform", "pixelization"], rw.randrange(1, 3))}
+            R.add("rq", {"kind": "over_request", "slots": slots})
+        if rw.random() < 0.25:
+            # the same data as a dataset built DIRECTLY from masked arrays (no apply_mask step in between), PSF normalised or not
+            dm_ = R.add("a", {"kind": "array2d", "mask": ref(m0), "input": "slim", "values": hx(rv, n0, "data")})
+            nm_ = R.add("a", {"kind": "array2d", "mask": ref(m0), "input": "slim", "values": hx(rv, n0, "noise")})
+            R.add("ds", {"kind": "imaging", "data": ref(dm_), "noise": ref(nm_), "psf": ref(psf), "over": over, "use_normalized_psf": rw.random() < 0.5})
 
     if "inversion" in want and ds_masked is not None:
         adapt = None
@@ -516,11 +525,22 @@ def gen_preloads_world(rw, rv, knobs):
     over = {"pixelization": {"uniform": sub}}
     use_normalized_psf = not signed
     ds_spec = {"kind": "imaging", "data": ref(d0), "noise": ref(nz), "psf": ref(psf), "over": over, "use_normalized_psf": use_normalized_psf}
-    ds0 = R.add("ds", ds_spec)
-    D = R.add("ds", {"kind": "derive", "src": ref(ds0), "q": {"t": "call", "name": "apply_mask", "kw": {"mask": ref(m0)}}})
-    # an identical second dataset ("computed from an identical dataset")
-    ds0b = R.add("ds", dict(ds_spec))
-    D2 = R.add("ds", {"kind": "derive", "src": ref(ds0b), "q": {"t": "call", "name": "apply_mask", "kw": {"mask": ref(m0)}}})
+    if rw.random() < 0.25:
+        # the dataset built DIRECTLY from masked arrays (no apply_mask in between, so the PSF is normalised - or not - exactly once)
+        dm_vals, nm_vals = hx(rv, n0, data_style), hx(rv, n0, "noise")
+        if not signed and rw.random() < 0.5:
+            use_normalized_psf = False  # a positive kernel used as given (its sum is not one)
+        direct = {"kind": "imaging", "psf": ref(psf), "over": over, "use_normalized_psf": use_normalized_psf}
+        D = R.add("ds", dict(direct, data=ref(R.add("a", {"kind": "array2d", "mask": ref(m0), "input": "slim", "values": dm_vals})),
+                             noise=ref(R.add("a", {"kind": "array2d", "mask": ref(m0), "input": "slim", "values": nm_vals}))))
+        D2 = R.add("ds", dict(direct, data=ref(R.add("a", {"kind": "array2d", "mask": ref(m0), "input": "slim", "values": list(dm_vals)})),
+                              noise=ref(R.add("a", {"kind": "array2d", "mask": ref(m0), "input": "slim", "values": list(nm_vals)}))))
+    else:
+        ds0 = R.add("ds", ds_spec)
+        D = R.add("ds", {"kind": "derive", "src": ref(ds0), "q": {"t": "call", "name": "apply_mask", "kw": {"mask": ref(m0)}}})
+        # an identical second dataset ("computed from an identical dataset")
+        ds0b = R.add("ds", dict(ds_spec))
+        D2 = R.add("ds", {"kind": "derive", "src": ref(ds0b), "q": {"t": "call", "name": "apply_mask", "kw": {"mask": ref(m0)}}})
 
     adapt = None
     if rw.random() < 0.4:
@@ -625,5 +645,5 @@ def gen_preloads_world(rw, rv, knobs):
         DX = R.add("di", {"kind": "dataset_interface", "data": ref(xdata), "noise": ref(xparts["noise_map"]), "grids": ref(xparts["grids"]),
                           "convolver": ref(xparts["convolver"]), "w_tilde": ref(xparts["w_tilde"])})
     meta = {"D": D, "D2": D2, "DI": DI, "DX": DX, "L": L, "L2": L2, "L3": L3, "st_w": st_w, "st_m": st_m, "src": src, "P": P, "slots": slots, "preloads_use_w_tilde": pl_use,
-            "has_mapper": has_mapper, "kernel": [ky, kx], "signed_psf": signed, "n_obj": len(obj_specs)}
+            "has_mapper": has_mapper, "kernel": [ky, kx], "signed_psf": signed, "n_obj": len(obj_specs), "sub": sub, "psf_normalised": bool(use_normalized_psf)}
     return R.nodes, meta
